@@ -3,6 +3,9 @@ CONSTANTS
   Relax = {}
   Mode = "honest"
   MaxBlocks = 3
+  Layouts = {"plain"}
+  MaxUnwind = 0
+  Defect = "none"
   MaxReload = 0
 CONSTRAINT Bounded
 VIEW View
